@@ -160,6 +160,57 @@ def h_get_prob(env, N, r):
     env.goal('wrong_length_rejected', bad.raised_kind('ValueError'))
 
 
+def h_self_queries(env, N, r):
+    """a state queried with observables derived from itself: its own stabilizer list (a view of its tableau), itself as
+    the overlap argument, a copy of itself; twice in a row; the state is unchanged by all of it"""
+    M = Mods(env)
+    gs, ps = sym_state(env, N)
+    state = mk_state(M, env, gs, ps, r)
+    for rnd in (1, 2):
+        res = env.run(lambda: state.expect(state.stabilizers))
+        env.goal('own_stabilizers_no_exception_%d' % rnd, b_not(res.raised))
+        if res.value is not None:
+            ok = np.shape(res.value) == (N - r,)
+            env.goal('own_stabilizers_shape_%d' % rnd, ok)
+            if ok:
+                env.goal('own_stabilizers_have_expectation_one_%d' % rnd, AND(eq(res.value[k], 1) for k in range(N - r)))
+        whole = env.run(lambda: state.expect(state[0:2 * N]))
+        if whole.value is not None and np.shape(whole.value) == (2 * N,):
+            for k in range(2 * N):
+                env.goal('tableau_row%d_expectation_%d' % (k, rnd), eq(whole.value[k], ref.ref_expect(gs, ps, r, N, gs[k], ps[k])))
+        else:
+            env.goal('tableau_rows_no_exception_%d' % rnd, False)
+        if r == 0:
+            for name, arg in (('itself', lambda: state), ('its_copy', lambda: state.copy())):
+                ov = env.run(lambda: state.expect(arg()))
+                env.goal('overlap_with_%s_is_one_%d' % (name, rnd), b_and(b_not(ov.raised), eq(ov.value, 1) if ov.value is not None else False))
+        env.goal('state_unchanged_%d' % rnd, AND([arr_eq(state.gs, gs), arr_eq(state.ps, ps), eq(state.r, r)]))
+
+
+def h_get_prob_forms(env, N, form):
+    """readout given as a boolean array / numpy int8 array; the same readout object used twice"""
+    M = Mods(env)
+    gs, ps = sym_state(env, N)
+    b = env.bits('readout', (N,))
+    state = mk_state(M, env, gs, ps, 0)
+    if env.symbolic:
+        from symclif.shim_numpy import S
+        arg = S(np.array([eq(x, 1) for x in b], dtype=object)) if form == 'bool' else b.copy()
+    else:
+        arg = np.array([int(x) for x in b], dtype=bool if form == 'bool' else np.int8)
+    tot = 0
+    for s in itertools.product((0, 1), repeat=N):
+        g = oarr([v for k in range(N) for v in (0, s[k])])
+        sign = sum((b[k] * s[k] for k in range(N)), 0) % 2
+        tot = tot + ref.ref_expect(gs, ps, 0, N, g, 2 * sign)
+    for rnd in (1, 2):
+        res = env.run(lambda: state.get_prob(arg))
+        env.goal('no_exception_%d' % rnd, b_not(res.raised))
+        if res.value is not None:
+            env.goal('probability_%d' % rnd, eq(res.value * (2 ** N), tot))
+    env.goal('state_unchanged', AND([arr_eq(state.gs, gs), arr_eq(state.ps, ps), eq(state.r, 0)]))
+
+
 def jobs(tier):
     J = []
     for N in (1, 2):
@@ -170,6 +221,10 @@ def jobs(tier):
             J.append(dict(harness=('c07', 'h_get_prob'), params=dict(N=N, r=r), timeout_s=300, cost=10))
             J.append(dict(harness=('c07', 'h_overlap'), params=dict(N=N, r_sigma=r), timeout_s=600, cost=60 * N))
         J.append(dict(harness=('c07', 'h_overlap'), params=dict(N=N, r_sigma=0, r_rho=1)))
+        for r in range(N + 1):
+            J.append(dict(harness=('c07', 'h_self_queries'), params=dict(N=N, r=r), timeout_s=300, cost=20))
+        for form in ('bool', 'int8'):
+            J.append(dict(harness=('c07', 'h_get_prob_forms'), params=dict(N=N, form=form), timeout_s=300, cost=10))
     if tier == 'thorough':
         for fix in itertools.product((0, 1), repeat=6):
             for r in range(4):
